@@ -495,7 +495,7 @@ class SATEncoder:
             """Convert SAT solution to CP variable assignments."""
             cp_sol: dict[str, int] = {}
             for name, var in self.model._vars.items():
-                if name.startswith("_"):
+                if name in self.model._unnamed:
                     continue
                 for val, bool_var in var.bool_vars.items():
                     if sat_sol.get(bool_var, False):
